@@ -1086,10 +1086,16 @@ pub fn check(ctx: &Ctx) -> Vec<PartReport> {
             require: vec![],
         },
     ));
+    if ctx.tier == crate::engine::Tier::Thorough && !ctx.stop.load(std::sync::atomic::Ordering::Relaxed) {
+        out.push(crate::fuzz::run(ctx, "C16", "role_filename", (1_000_000f64 * ctx.scale) as u64, 128));
+    }
     out
 }
 
 pub fn replay(_ctx: &Ctx, part: &str, case: &Value) -> Outcome {
+    if let Some(t) = part.strip_prefix("fuzz:") {
+        return crate::fuzz::replay(t, case["input_hex"].as_str().unwrap_or(""));
+    }
     match part {
         "outside-domain-notes" => crate::engine::replay_case::<String>(case, note_case),
         _ => {
